@@ -237,13 +237,13 @@ CFrame(s, sc, e) ==
     IF s.fbad[c + 1] THEN [s |-> [s EXCEPT !.fcount[c + 1] = IF e.interim THEN @ ELSE i], v |-> <<>>]
     ELSE IF e.interim
     THEN \* 100 Continue: belongs to the request whose final frame comes next
-         IF i > Len(sl) THEN [s |-> s, v |-> V(FALSE, "C18", "InterimWithoutRequest")]
+         IF i > Len(sl) THEN [s |-> s, v |-> V(FALSE, Own(sc, "C18"), "InterimWithoutRequest")]
          ELSE LET mm == sl[i]  x == M(sc, c, mm) IN
               [ s |-> [s EXCEPT !.icnt[c + 1][mm + 1] = @ + 1],
-                v |-> V(x.cls = "ok" /\ x.exp, "C18", "InterimNotExpected")
-                      \o V(s.asked[c + 1][mm + 1] >= 1, "C18", "InterimBeforeBodyAsked")
-                      \o V(s.icnt[c + 1][mm + 1] = 0, "C18", "InterimTwice")
-                      \o V(e.st = 100 /\ e.wf, "C18", "InterimMalformed") ]
+                v |-> V(x.cls = "ok" /\ x.exp, Own(sc, "C18"), "InterimNotExpected")
+                      \o V(s.asked[c + 1][mm + 1] >= 1, Own(sc, "C18"), "InterimBeforeBodyAsked")
+                      \o V(s.icnt[c + 1][mm + 1] = 0, Own(sc, "C18"), "InterimTwice")
+                      \o V(e.st = 100 /\ e.wf, Own(sc, "C18"), "InterimMalformed") ]
     ELSE
       IF i > Len(sl) /\ s.pend[c + 1] = {}
       THEN [ s |-> [s EXCEPT !.fcount[c + 1] = i, !.fbad[c + 1] = TRUE],
@@ -302,7 +302,7 @@ CFrame(s, sc, e) ==
                 \o V(e.bm, wfp, "FrameBodyDiffers")
                 \o V(explen >= 0 => e.blen = explen, wfp, "FrameBodyLength")
                 \o V((isok /\ x.nobody) => e.wire = 0, "C04", "BodyOctetsOnNoBodyResponse")
-                \o V((isok /\ x.exp /\ s.asked[c + 1][mm + 1] >= 1) => s.icnt[c + 1][mm + 1] = 1, "C18", "InterimMissing") ]
+                \o V((isok /\ x.exp /\ s.asked[c + 1][mm + 1] >= 1) => s.icnt[c + 1][mm + 1] = 1, Own(sc, "C18"), "InterimMissing") ]
 
 \* slots still pending when nothing more can arrive: their responses are lost
 LostNow(s, sc, c) ==
@@ -370,7 +370,7 @@ Quiescent(s, sc, e, rb, dropped) ==
                        LET m == Slots(s, c)[i] x == M(sc, c, m) IN
                        (x.cls = "ok" /\ x.exp /\ s.asked[c + 1][m + 1] >= 1 /\ DonePrefix(s, sc, c, 1) >= i - 1)
                           => s.icnt[c + 1][m + 1] >= 1,
-                 "C18", "InterimMissing")
+                 Own(sc, "C18"), "InterimMissing")
             \o V(\A c \in conns : eofowed(c) => s.ceof[c + 1], (IF Fam(sc) = "C20" THEN "C20" ELSE Own(sc, "C12")), "NotClosedAfterLastResponse")
             \o V(\A c \in 0..(NC(sc) - 1) : (s.fault[c + 1] \in {"close", "reset", "half"} /\ s.sent[c + 1] < 10000000) => ~(stuckread(c) /\ ph >= 1), "C15", "BodyReadBlockedForever") ]
 
